@@ -131,17 +131,18 @@ impl PmCase {
         Some(zint::mul(&zint::pow(&z, &size), &zint::inv(&den)))
     }
     fn check(&self) -> (String, Option<String>) {
-        let want = match self.reference() {
-            Some(w) => w,
-            None => return ("vanishing-factor".into(), None),
-        };
+        let want = self.reference();
         let size = crate::kit::b2f(&(self.total() + self.slack_total()));
         let pi = self.public_input();
         let (z, alpha) = (self.z, self.alpha);
-        match panics::catch(|| pi.get_public_memory_product_ratio(z, alpha, size)) {
-            Ok(g) if f2b(&g) == want => ("ratio-ok".into(), None),
-            Ok(g) => ("ratio-differs".into(), Some(format!("ratio = {} but z^size / prod = {:#x}", fhex(&g), want))),
-            Err(p) => ("panic".into(), Some(format!("panic {}", p.site()))),
+        // the ratio is defined when no factor of the denominator vanishes; otherwise an error value is due
+        match (panics::catch(|| pi.get_public_memory_product_ratio(z, alpha, size)), want) {
+            (Ok(Ok(g)), Some(w)) if f2b(&g) == w => ("ratio-ok".into(), None),
+            (Ok(Ok(g)), Some(w)) => ("ratio-differs".into(), Some(format!("ratio = {} but z^size / prod = {:#x}", fhex(&g), w))),
+            (Ok(Err(_)), None) => ("vanishing-factor:error-value".into(), None),
+            (Ok(Ok(g)), None) => ("vanishing-factor:value".into(), Some(format!("a factor of the denominator vanishes but a ratio {} is returned", fhex(&g)))),
+            (Ok(Err(e)), Some(_)) => ("ratio-refused".into(), Some(format!("the ratio is defined but an error is returned: {:?}", e))),
+            (Err(p), _) => ("panic".into(), Some(format!("panic {}", p.site()))),
         }
     }
 }
